@@ -147,6 +147,7 @@ func scenarioC17(x *runner.X) {
 
 	valid := func(off, ln int64) bool { return off >= 0 && ln >= 0 && off+ln <= int64(size) }
 
+	twoFiles := t.Bool(0.25) && size >= 2
 	x.Sim(runner.SimOpts{Phase: "range-cache", FaultsFlowing: false, Cfg: dsim.Config{MaxSteps: 300000, MaxSimTime: 24 * time.Hour}}, func() {
 		s := dsim.Active()
 		store := simhttp.NewStore()
@@ -165,6 +166,22 @@ func scenarioC17(x *runner.X) {
 			s.Fail("oracle", "opening the remote file failed without a remote failure", fmt.Sprintf("size=%d got %d err=%v headFallback=%v", size, sz, err, headFallback))
 		}
 		rr := rd.(*HTTPSingleFileRemoteReaderAt)
+		// a second remote file, open at the same time, whose URL has the same path on another host
+		// and different content: readers of different files must not share anything
+		var rr2 *HTTPSingleFileRemoteReaderAt
+		var data2 []byte
+		if twoFiles {
+			data2 = make([]byte, size/2+3)
+			for i := range data2 {
+				data2[i] = ^data[i%len(data)] ^ byte(i)
+			}
+			store.Put("other.sim/f", data2)
+			rd2, sz2, err := NewRemoteHTTPFileAsIoReaderAt(ctx, "http://other.sim/f")
+			if err != nil || sz2 != int64(len(data2)) {
+				s.Fail("oracle", "opening a second remote file failed without a remote failure", fmt.Sprintf("size=%d got %d err=%v", len(data2), sz2, err))
+			}
+			rr2 = rd2.(*HTTPSingleFileRemoteReaderAt)
+		}
 		fault.Install(plan)
 
 		checkRead := func(name string, off, ln int64, got []byte, n int, err error, tag *c17tag) {
@@ -240,6 +257,24 @@ func scenarioC17(x *runner.X) {
 				s.Fail("oracle", "ReadAt of a valid range fails after remote failures have stopped", fmt.Sprintf("ReadAt(off=%d,len=%d) err=%v", off, ln, err))
 			}
 			checkRead("ReadAt(after faults)", off, ln, p, n, err, tag)
+		}
+		if rr2 != nil {
+			// (faults have stopped) the second file answers with its own bytes and its own size
+			for i := 0; i < 4; i++ {
+				off := int64(s.Tape().Intn(len(data2)))
+				ln := int64(s.Tape().Range(1, mini(len(data2)-int(off), 16)))
+				p := make([]byte, ln)
+				n, err := rr2.ReadAt(p, off)
+				if err != nil || int64(n) != ln || !bytes.Equal(p[:n], data2[off:off+ln]) {
+					s.Fail("oracle", "a second remote file with the same URL path is answered with another file's bytes or size",
+						fmt.Sprintf("ReadAt(off=%d,len=%d) on the %d-byte file: n=%d err=%v got %x want %x", off, ln, len(data2), n, err, clip(p[:n]), clip(data2[off:off+ln])))
+				}
+			}
+			p := make([]byte, 4)
+			if n, err := rr2.ReadAt(p, int64(len(data2))+2); err == nil && n > 0 {
+				s.Fail("oracle", "a read past the end of the second remote file succeeded", fmt.Sprintf("n=%d on %d bytes", n, len(data2)))
+			}
+			rr2.ca.Close()
 		}
 		cancel()
 		rr.ca.Close()
